@@ -265,7 +265,11 @@ def ask_geometry(case):
 
 def configure(case, pt, loss_type):
     """The part of reconstruct() that precedes the iteration loop, for the case's descan mode."""
-    cons = {"dataset": {"clip_scan_positions": bool(case.get("clip", True))}}
+    cons = {"dataset": {}}
+    if not case.get("clip", True):
+        # NOTE: on the examined tree clip_scan_positions=False makes dset.forward raise KeyError
+        # (apply_hard_constraints assigns the nn.Parameter itself to the property); not generated by C02
+        cons["dataset"]["clip_scan_positions"] = False
     if case["descan"] != "A":
         pt.optimizer_params = {"dataset": {"type": "adam", "lr": 1e-3}}
         pt.set_optimizers()
